@@ -1200,6 +1200,9 @@ func (r *multiCIDRRangeAllocator) createClusterCIDRSet(clusterCIDR *v1.ClusterCI
 		if err != nil {
 			return nil, fmt.Errorf("unable to parse provided IPv4 CIDR: %w", err)
 		}
+		if !netutil.IsIPv4CIDR(ipv4CIDR) {
+			return nil, fmt.Errorf("provided IPv4 CIDR %q is not an IPv4 CIDR", clusterCIDR.Spec.IPv4)
+		}
 		clusterCIDRSet.IPv4CIDRSet, err = cidrset.NewMultiCIDRSet(ipv4CIDR, int(clusterCIDR.Spec.PerNodeHostBits))
 		if err != nil {
 			return nil, fmt.Errorf("unable to create IPv4 cidrSet: %w", err)
@@ -1210,6 +1213,9 @@ func (r *multiCIDRRangeAllocator) createClusterCIDRSet(clusterCIDR *v1.ClusterCI
 		_, ipv6CIDR, err := netutil.ParseCIDRSloppy(clusterCIDR.Spec.IPv6)
 		if err != nil {
 			return nil, fmt.Errorf("unable to parse provided IPv6 CIDR: %w", err)
+		}
+		if !netutil.IsIPv6CIDR(ipv6CIDR) {
+			return nil, fmt.Errorf("provided IPv6 CIDR %q is not an IPv6 CIDR", clusterCIDR.Spec.IPv6)
 		}
 		clusterCIDRSet.IPv6CIDRSet, err = cidrset.NewMultiCIDRSet(ipv6CIDR, int(clusterCIDR.Spec.PerNodeHostBits))
 		if err != nil {
